@@ -285,8 +285,13 @@ def run(ctx: core.Ctx):
             t2_fail.append(desc)
         if dom and not ms:
             dom_fail.append(desc)
-        if any(len(cc.DATA[case["data"]][cc.df_base(x)]) > 0 for x in [case["left"]] + [s["right"] for s in case["steps"]]):
-            n_nontriv += 1
+        # non-trivial: the data has NULL / duplicate keys (every non-empty variant has), the observed or recorded result is
+        # non-empty and is not just the left input again
+        ans = m["impl"] or ((rec["cols"], [tuple(x) for x in rec["rows"]]) if rec is not None and "error" not in rec else None)
+        if ans is not None and ans[1]:
+            lcols, lrows = rd.df_frame(case["left"], case["data"])
+            if sorted(map(repr, (tuple(x) for x in ans[1]))) != sorted(map(repr, lrows)):
+                n_nontriv += 1
         if len(ctx.samples) < 5 and len(case["steps"]) >= 2 and im and isp:
             ctx.sample({"program": rd.case_str(case), "verdict": r})
     for sig, (case, desc, it) in sorted(best.items()):
@@ -349,7 +354,8 @@ def run(ctx: core.Ctx):
         "rule": "case = (join program, data variant); programs: every (lineage pair) x 27 spellings (18 documented + 9 case variants) "
                 "x 6 on-forms, collision-free pairs, eqNullSafe / non-equi conditions, every kind x on-form followed by 6 select/where "
                 "shapes, random left-deep chains of 2..3 joins (+ select/where) over 5 tables; data variants with duplicate keys, "
-                "NULL keys, an empty side; non-trivial = at least one non-empty input; distinct by (program, data)",
+                "NULL keys, an empty side; non-trivial = the (implementation's, else PySpark's recorded) result is non-empty and is not the "
+                "left input's bag of rows again; distinct by (program, data)",
         "programs": len(cases), "in_theorem_domain": n_dom, "t2_tree_equals_model": n_t2,
         "t2_not_exportable": n_unexportable, "t2_not_exportable_reasons": unexport_why,
         "impl_raised": n_raise, "deviations_impl_vs_spec": n_dev, "deviation_signatures": sorted(best),
